@@ -77,7 +77,7 @@ P = {
  "C09": dict(text="Proved about writer and reader models, for every line length and any atom count: the written file has no line over 79 characters, "
              "and reading it back returns the same atoms in order with the same element, charge, radical, mass, coordinate tokens and the "
              "same bonds and bond types (C09_write_read; C09_write_read_any_listing for graphs whose nodes are listed in any order, e.g. "
-             "canonical graphs; C09_write_read_same_string; C09_bond_records: no other adjacency record appears; C09_written_is_v3000_file: the written lines are a V3000 connection table in the sense of C07's specification (IsV3000File), independently of any reader; C09_string_molfile_string(_total): string->graph->molfile->graph->string returns the "
+             "canonical graphs; C09_write_read_same_string; C09_bond_records: no other adjacency record appears; C09_written_is_v3000_file: the written lines are a V3000 connection table in the sense of C07's specification (IsV3000File), independently of any reader; C09_written_read_by_spec: C07's specification applied to it gives the reader's result by a second route; C09_string_molfile_string(_total): string->graph->molfile->graph->string returns the "
              "original string, with writability of the parsed graph and the success of every step as conclusions); plus the line-level lemmas. Probe: real write→read with length-targeted lines.",
              note="float formatting is opaque (coordinates are pre-formatted tokens); labels are 0..n-1, listed in any order.",
              tech="Lean 4 proof (file-level write/read for all lengths) + correspondence + length-targeted round-trip probe"),
